@@ -212,6 +212,20 @@ class Provenance:
             if e.id.startswith('__TMPDIR') or e.id in ('__BINARY',
                                                        '__BINARY_CC'):
                 return {'TMP'}
+            # a module global bound to a TemporaryDirectory object
+            if func is not None and e.id not in params_of(func):
+                for q_, g_ in mod.funcs.items():
+                    for st in ast.walk(g_):
+                        if isinstance(st, ast.Assign) and any(
+                                isinstance(t, ast.Name) and t.id == e.id
+                                for t in st.targets) and isinstance(
+                                    st.value, ast.Call) and (call_name(
+                                        st.value) or '').startswith(
+                                            'tempfile.') and any(
+                                                isinstance(x, ast.Global)
+                                                and e.id in x.names
+                                                for x in ast.walk(g_)):
+                            return {'TMP'}
             if func is not None and e.id in params_of(func):
                 if depth >= 3:
                     return {'UNKNOWN'}
